@@ -540,6 +540,44 @@ def check_tab(ck, prog):
     ck.floor("C01-TAB", 20)
 
 
+def check_lzma2_flags(ck, prog):
+    """The LZMA2 encoder announces a state reset in the chunk header exactly when need_state_reset is set; the LZMA
+    encoder must then really have been reset (and only then), otherwise encoder and decoder models diverge."""
+    from .oblig import MP, evaluate
+    F = "lzma2_encoder.c"
+    table = [
+        MP("reset-only-when-flagged", "lzma2_encode", F, [("test", "field:need_state_reset", "T")],
+           ("call", "lzma_lzma_encoder_reset"), src=("SEQ_INIT",), init_seq=("SEQ_INIT",), resume=False,
+           why="lzma_lzma_encoder_reset() is called only when need_state_reset is set (the header says 'state reset' "
+               "exactly then)"),
+        MP("flagged-implies-reset", "lzma2_encode", F, [("test", "field:need_state_reset", "F")],
+           ("call", "lzma_lzma_encode"), src=("SEQ_INIT",), init_seq=("SEQ_INIT",), resume=False,
+           cut_calls=("lzma_lzma_encoder_reset",),
+           why="a chunk is LZMA-encoded after SEQ_INIT only if need_state_reset was clear or the encoder was reset"),
+    ]
+    ck.rule("C01-LZMA2", "state-reset flag of the LZMA2 encoder and the actual reset of the LZMA encoder are paired")
+    evaluate(ck, prog, "C01-LZMA2", table, floor=2)
+    # the header writer derives the reset bits from the same flags and clears them
+    f = prog.fn("lzma2_header_lzma", F)
+    ck.saw_function(f)
+    cleared = sorted({ex.show(l) for b, i, e in f.iter_elems() for (l, r, op, n) in ex.writes(e)
+                      if "need_" in ex.show(l) and r is not None and ex.const_val(r) == 0})
+    tests = sorted({ex.show(b.term["cond"]) for b in f.blocks.values() if b.term and "cond" in b.term and
+                    "need_" in ex.show(b.term["cond"])})
+    ck.ob("C01-LZMA2", "header-flags", cleared == ["coder->need_dictionary_reset", "coder->need_properties",
+                                                   "coder->need_state_reset"] and len(tests) == 3,
+          common.where(f), "lzma2_header_lzma: control byte chosen from %s; flags cleared afterwards: %s" % (tests, cleared),
+          key="LZMA2:header-flags")
+    g = prog.fn("lzma2_encode", F)
+    sets = [(ex.show(l), ex.line(n)) for b, i, e in g.iter_elems() for (l, r, op, n) in ex.writes(e)
+            if ex.show(l) == "coder->need_state_reset" and r is not None and ex.const_val(r) == 1]
+    hdr = [ex.line(c) for b, i, e in g.iter_elems() for c in ex.calls(e, into_refs=False)
+           if c.get("fn") == "lzma2_header_uncompressed"]
+    ck.ob("C01-LZMA2", "uncompressed-needs-reset", len(sets) == 1 and len(hdr) == 1 and abs(sets[0][1] - hdr[0]) <= 2,
+          common.where(g), "lzma2_encode: after an uncompressed chunk need_state_reset is set (lines %s / %s)" % (sets, hdr),
+          key="LZMA2:uncompressed-needs-reset")
+
+
 def run(ck):
     ck.explanation = (
         "Path-shape and table clauses of losslessness: the match finders advance the window exactly once per byte "
@@ -556,3 +594,4 @@ def run(ck):
     check_norm(ck, prog, prog)
     check_reset(ck, prog)
     check_tab(ck, prog)
+    check_lzma2_flags(ck, prog)
